@@ -66,7 +66,17 @@ type Lemma struct {
 	Src   string
 }
 
+type GhostDef struct {
+	Name   string
+	Params [][2]string // name, sort
+	Ret    string
+	Body   string
+	Src    string
+	expr   *Expr
+}
+
 type Specs struct {
+	Defs      map[string]*GhostDef
 	Contracts map[string]*Contract
 	Ghosts    map[string]*GhostFunc
 	GhostVars map[string]string // name -> sort
@@ -76,7 +86,7 @@ type Specs struct {
 }
 
 func newSpecs() *Specs {
-	return &Specs{Contracts: map[string]*Contract{}, Ghosts: map[string]*GhostFunc{}, GhostVars: map[string]string{}}
+	return &Specs{Contracts: map[string]*Contract{}, Ghosts: map[string]*GhostFunc{}, GhostVars: map[string]string{}, Defs: map[string]*GhostDef{}}
 }
 
 var tagRe = regexp.MustCompile(`^([a-z]+)(\[[A-Za-z0-9_,\-]+\])?$`)
@@ -146,6 +156,7 @@ func (S *Specs) loadFile(path, pkg string, goFile bool) error {
 	var curLemma *Lemma
 	var last *Clause // for continuation lines
 	var lastAxiom *Axiom
+	var lastDef *GhostDef
 	ln := 0
 	for sc.Scan() {
 		ln++
@@ -180,7 +191,7 @@ func (S *Specs) loadFile(path, pkg string, goFile bool) error {
 				return fmt.Errorf("%s: duplicate contract for %s (first at %s)", src, key, old.Src)
 			}
 			S.Contracts[key] = cur
-			curLemma, last, lastAxiom = nil, nil, nil
+			curLemma, last, lastAxiom, lastDef = nil, nil, nil, nil
 			for _, w := range words[2:] {
 				if w == "trusted" {
 					cur.Trusted = true
@@ -190,7 +201,7 @@ func (S *Specs) loadFile(path, pkg string, goFile bool) error {
 			}
 		case "ghost":
 			// ghost func name(sort, sort) sort   |   ghost var name sort
-			cur, curLemma, last, lastAxiom = nil, nil, nil, nil
+			cur, curLemma, last, lastAxiom, lastDef = nil, nil, nil, nil, nil
 			if len(words) >= 3 && words[1] == "var" {
 				S.GhostVars[words[2]] = strings.TrimSpace(strings.Join(words[3:], " "))
 				continue
@@ -200,8 +211,39 @@ func (S *Specs) loadFile(path, pkg string, goFile bool) error {
 				return fmt.Errorf("%s: %v", src, err)
 			}
 			S.Ghosts[g.Name] = g
+		case "define":
+			// define name(a Sort, b Sort) Sort = expr
+			cur, curLemma, last, lastAxiom = nil, nil, nil, nil
+			eqi := strings.Index(rest, "=")
+			for eqi >= 0 && eqi+1 < len(rest) && (rest[eqi+1] == '=' || (eqi > 0 && strings.ContainsRune("<>!=", rune(rest[eqi-1])))) {
+				n := strings.Index(rest[eqi+2:], "=")
+				if n < 0 {
+					eqi = -1
+					break
+				}
+				eqi += 2 + n
+			}
+			if eqi < 0 {
+				return fmt.Errorf("%s: define needs '= body'", src)
+			}
+			head, body := strings.TrimSpace(rest[:eqi]), strings.TrimSpace(rest[eqi+1:])
+			i, j := strings.Index(head, "("), strings.LastIndex(head, ")")
+			if i < 0 || j < i {
+				return fmt.Errorf("%s: bad define head", src)
+			}
+			d := &GhostDef{Name: strings.TrimSpace(head[:i]), Ret: strings.TrimSpace(head[j+1:]), Body: body, Src: src}
+			for _, pr := range splitTop(head[i+1:j], ',') {
+				f := strings.Fields(pr)
+				if len(f) < 2 {
+					return fmt.Errorf("%s: bad define parameter %q", src, pr)
+				}
+				d.Params = append(d.Params, [2]string{f[0], strings.Join(f[1:], " ")})
+			}
+			S.Defs[d.Name] = d
+			lastDef = d
 		case "axiom":
 			cur, curLemma, last = nil, nil, nil
+			lastDef = nil
 			i := strings.Index(rest, ":")
 			if i < 0 {
 				return fmt.Errorf("%s: axiom needs 'name: expr'", src)
@@ -209,7 +251,7 @@ func (S *Specs) loadFile(path, pkg string, goFile bool) error {
 			lastAxiom = &Axiom{Name: strings.TrimSpace(rest[:i]), Text: strings.TrimSpace(rest[i+1:]), Src: src, Trusted: true}
 			S.Axioms = append(S.Axioms, lastAxiom)
 		case "lemma":
-			cur, last, lastAxiom = nil, nil, nil
+			cur, last, lastAxiom, lastDef = nil, nil, nil, nil
 			curLemma = &Lemma{Name: words[1], Tags: tags, Src: src}
 			S.Lemmas = append(S.Lemmas, curLemma)
 		case "var":
@@ -271,7 +313,7 @@ func (S *Specs) loadFile(path, pkg string, goFile bool) error {
 			}
 			cur.Sweep = append(cur.Sweep, tags...)
 			cur.Flags["sweep"] = "1"
-		case "flag", "nowrap", "inline", "pure", "noinline", "maypanic", "params", "trusted", "total", "alloc", "bounded":
+		case "flag", "nowrap", "inline", "pure", "noinline", "maypanic", "params", "trusted", "total", "alloc", "bounded", "modifies", "axioms", "depth", "exact", "logged":
 			if cur == nil {
 				return fmt.Errorf("%s: flag outside func", src)
 			}
@@ -290,7 +332,9 @@ func (S *Specs) loadFile(path, pkg string, goFile bool) error {
 			}
 		default:
 			// continuation of the previous clause
-			if last != nil {
+			if lastDef != nil && last == nil && lastAxiom == nil {
+				lastDef.Body += " " + trim
+			} else if last != nil {
 				last.Text += " " + trim
 			} else if lastAxiom != nil {
 				lastAxiom.Text += " " + trim
